@@ -63,6 +63,8 @@ def one(args):
         d = d.replace(tdir.encode(), b"<TREE>").replace(envo.get("TMPDIR", "/tmp").encode(), b"<TMP>").replace(b"/tmp", b"<TMP>")
         import re
         d = re.sub(rb"nanoc_\d+_", b"nanoc_<PID>_", d)
+        # a module is named in a diagnostic by its resolved path, which spells the same file relative to the invocation
+        d = re.sub(rb"(?:<TREE>/|\./|\.\./)+modules/", b"<TREE>/modules/", d)
         # headers are padded with dashes to a fixed width around the (normalised) path
         d = re.sub(rb"-{3,}", b"---", d).replace(b"<SRCBASE>", b"<SRC>")
         h = []
